@@ -29,6 +29,7 @@ def optHex (s : String) : Option (Option Str) := if s = "!" then some none else 
 def parseInvoke (s : String) : Option Invoke :=
   match s.splitOn ":" with
   | [a, b, c] => do pure { docId := ← nat? a, autoforward := ← bool? b, finalize := ← nat? c }
+  | [a, b, c, i] => do pure { docId := ← nat? a, autoforward := ← bool? b, finalize := ← nat? c, id := ← unhex i }
   | _ => none
 
 def parseParam (s : String) : Option Param :=
